@@ -115,4 +115,12 @@ theorem C17_tgen_manifest_found :
 theorem C01_tgen_get_found :
     n_break_lcget_found = true ∧ n_return_lcget_found = true ∧ n_break_dbget_found = true ∧
     n_return_dbget_found = true ∧ n_break_lhget_found = true ∧ n_return_lhget_found = true := by decide
+/-- banned namespaces: `isBanned` guards with `NamespaceOffset < 0` and `len(key) <= off+8`
+    (`isBannedKey`), `Txn.Get` checks it between the discarded test and the pending lookup
+    (`Db.txnGetNs`), `parseItem` checks it on the user key between the version window test and the
+    mode-specific logic (`hideBanned`), `BanNamespace` writes the marker at version 1 and then adds
+    the namespace to the in-memory set (`Db.banNamespace`). -/
+theorem C28_tgen_banned :
+    op_isbanned_len = "<=" ∧ op_isbanned_off = "<" ∧ ord_get_banned = "ascending" ∧
+    ord_parseitem_banned = "ascending" ∧ has_ban_add = "yes" ∧ ord_ban_steps = "ascending" := by decide
 end Badger
